@@ -84,9 +84,7 @@ async def argument_coercer(
             ]
         )
     elif has_value:
-        if isinstance(argument_node.value, NullValueNode):
-            coercion_result = CoercionResult(value=None)
-        elif isinstance(argument_node.value, VariableNode):
+        if isinstance(argument_node.value, VariableNode):
             coercion_result = CoercionResult(
                 value=variable_values[argument_node.value.name.value]
             )
